@@ -8,11 +8,18 @@ def check(run):
                 'enumerated by TLC; replayed into rbql.query with a ListTableRegistry-like recording registry; B must be read completely before A (monitor); '
                 'non-trivial = >= 2 input records and (>= 1 output row or an error)')
     run.assumptions = ['join keys are cells or NR/bNR']
-    ec.spec_mutant(run, 'Q_C04pairs', 'R_w2', 'unnest_reset_per_record', recsB='R_w2', maxA=1, maxB=2)
-    ec.run_family(run, 'C04-select', 'Q_C04sel', 'R_w2', recsB='R_w2', maxA=2 if quick else 3, maxB=2, hdrmodes=(False,))
-    ec.run_family(run, 'C04-pairs', 'Q_C04pairs', 'R_w2', recsB='R_w2N', maxA=2, maxB=2, hdrmodes=(False, True))
-    ec.run_family(run, 'C04-order-distinct-top', 'Q_C02joinok', 'R_2x2', recsB='R_2x2', maxA=2, maxB=2 if quick else 3)
-    ec.run_family(run, 'C04-update', 'Q_C05join', 'R_w2N', recsB='R_w2', maxA=2, maxB=2 if quick else 3)
+    ec.spec_mutant(run, 'Q_C04pairs', 'R_2x2', 'unnest_reset_per_record', recsB='R_2x2', maxA=1, maxB=2)
+    if quick:
+        ec.run_family(run, 'C04-select', 'Q_C04selQ', 'R_q4', recsB='R_q4', maxA=2, maxB=2)
+        ec.run_family(run, 'C04-pairs', 'Q_C04pairs', 'R_q4', recsB='R_q4', maxA=2, maxB=2, hdrmodes=(False, True))
+        ec.run_family(run, 'C04-order-distinct-top', 'Q_C02joinok', 'R_2x2', recsB='R_2x2', maxA=1, maxB=3)
+        ec.run_family(run, 'C04-update', 'Q_C05join', 'R_q4', recsB='R_q4', maxA=2, maxB=2)
+    else:
+        ec.run_family(run, 'C04-select', 'Q_C04sel', 'R_w2', recsB='R_w2', maxA=2, maxB=2)
+        ec.run_family(run, 'C04-select-3', 'Q_C04selQ', 'R_q4', recsB='R_q4', maxA=3, maxB=3)
+        ec.run_family(run, 'C04-pairs', 'Q_C04pairs', 'R_w2', recsB='R_w2N', maxA=2, maxB=2, hdrmodes=(False, True))
+        ec.run_family(run, 'C04-order-distinct-top', 'Q_C02joinok', 'R_2x2', recsB='R_2x2', maxA=2, maxB=3)
+        ec.run_family(run, 'C04-update', 'Q_C05join', 'R_w2N', recsB='R_w2', maxA=2, maxB=3)
     run.exhaustive = True
 
 
